@@ -55,14 +55,15 @@ int main()
       }
    }
    {
-      // dense unit lower triangular 3x3, dense second right-hand side: vSolveLright2 writes ridx2[3]
+      // dense 3x3 matrix (2 on the diagonal, 1 elsewhere: no singletons, so L is not empty), dense second right-hand side:
+      // vSolveLright2 writes ridx2[3]
       const int n = 3;
       SLUFactorRational F;
       std::vector<DSVectorRational> c(n, DSVectorRational(4));
       const SVectorRational* cols[n];
       for(int j = 0; j < n; j++)
       {
-         for(int i = j; i < n; i++) c[j].add(i, Rational(i == j ? 1 : 2));
+         for(int i = 0; i < n; i++) c[j].add(i, Rational(i == j ? 2 : 1));
          cols[j] = &c[j];
       }
       if(F.load(cols, n) != SLinSolverRational::OK) return 2;
